@@ -1118,3 +1118,38 @@ CONTRACTS[CI + 'MeasureLayer.backward#own'] = dict(
     loops={1: dict(var='ii', invariant=_mb_inv)},
     hints={'call:obj.postselect#1.before': _mb_hints},
 )
+
+# ------------------------------------------------------------------ C17: a copy of a gate shares nothing with the original
+GATE_GEN_C = {'cls': 'CliffordGate', 'fields': {'n': 'int', 'generator': dict(PAULI, exact=False), 'forward_map': 'none', 'backward_map': 'none', 'qubits': 'int1'}}
+GATE_MAP_C = {'cls': 'CliffordGate', 'fields': {'n': 'int', 'generator': 'none', 'forward_map': CMAP, 'backward_map': CMAP, 'qubits': 'int1'}}
+CONTRACTS[CI + 'CliffordGate.copy#generator'] = dict(
+    params=[('self', GATE_GEN_C)], requires=['self.n == len(self.qubits)'],
+    ensures=['result.n == self.n', 'len(result.qubits) == len(self.qubits)', 'forall(k, 0, len(self.qubits), result.qubits[k] == self.qubits[k])',
+             'eq1(result.generator.g, self.generator.g)', 'result.generator.p == self.generator.p', 'fresh_loc(result.generator.g)'],
+    modifies=[], returns=GATE_GEN_C)
+CONTRACTS[CI + 'CliffordGate.copy#maps'] = dict(
+    params=[('self', GATE_MAP_C)], requires=['self.n == len(self.qubits)'],
+    ensures=['result.n == self.n', 'len(result.qubits) == len(self.qubits)', 'forall(k, 0, len(self.qubits), result.qubits[k] == self.qubits[k])',
+             'rows(result.forward_map.gs) == rows(self.forward_map.gs)', 'cols(result.forward_map.gs) == cols(self.forward_map.gs)',
+             'forall(j, 0, rows(self.forward_map.gs), forall(c, 0, cols(self.forward_map.gs), result.forward_map.gs[j][c] == self.forward_map.gs[j][c]))',
+             'eq1(result.forward_map.ps, self.forward_map.ps)',
+             'forall(j, 0, rows(self.backward_map.gs), forall(c, 0, cols(self.backward_map.gs), result.backward_map.gs[j][c] == self.backward_map.gs[j][c]))',
+             'eq1(result.backward_map.ps, self.backward_map.ps)',
+             'fresh_loc(result.forward_map.gs)', 'fresh_loc(result.forward_map.ps)', 'fresh_loc(result.backward_map.gs)', 'fresh_loc(result.backward_map.ps)'],
+    modifies=[], returns=GATE_MAP_C)
+
+# ------------------------------------------------------------------ C19: sampled operators are signed elements of the stabilizer group
+# Every sampled row is the ORDERED PRODUCT of the active stabilizers selected by a bit row of the drawn matrix C (a local of the
+# function, named as a ghost: the clauses about C are discharged here and are invisible to callers and to the native monitor), with the
+# phase that product has.  What the rows are products OF is stated with the canonical slice terms RowSlice / Slice1 of the tableau.
+_saG = 'RowSlice(self.gs, self.r, cols(self.gs) // 2)'
+_saP = 'Slice1(self.ps, self.r, cols(self.gs) // 2)'
+CONTRACTS[ST + 'StabilizerState.sample'] = dict(
+    params=[('self', STATE), ('L', 'int')],
+    requires=['L >= 0', 'cols(self.gs) % 2 == 0', 'inv_state(self.gs, self.ps, self.r, cols(self.gs) // 2)'],
+    ensures=['rows(result.gs) == L', 'cols(result.gs) == cols(self.gs)', 'len(result.ps) == L', 'bits2(result.gs)',
+             'rows(C) == L', 'cols(C) == cols(self.gs) // 2 - self.r', 'bits2(C)',
+             'forall(j, 0, L, forall(c, 0, cols(self.gs), result.gs[j][c] == OrdG(C[j], %s, cols(self.gs) // 2 - self.r, c)))' % _saG,
+             'forall(j, 0, L, result.ps[j] == OrdP(C[j], %s, %s, cols(self.gs) // 2 - self.r, cols(self.gs) // 2))' % (_saG, _saP)],
+    modifies=[], returns=dict(PLIST, exact=False), ghost=['C'], canonical_slices=True,
+)
